@@ -55,6 +55,20 @@ def c02(case):
                     return {"exc": "none", "qqs": None, "note": "plss wrapper gave %d tracts" % len(d.tracts)}
                 t = d.tracts[0]
             qqs = t.qqs
+        elif ch == "mixed":
+            # the object is configured with a *related* depth setting; the keyword is the caller's statement for this
+            # call and silences it (tract.py: "If qq_depth_min or qq_depth_max are specified as an arg, we will NOT use
+            # the instance attribute"; an exact qq_depth keyword gets top priority)
+            if qd is not None:
+                t = pytrs.Tract(text, config="qq_depth_min.%d,qq_depth_max.%d" % ((qd % 3) + 1, (qd % 3) + 2))
+                t.parse(qq_depth=qd, break_halves=bh)
+            else:
+                cfg = "qq_depth.%d" % ((dmin % 3) + 1)
+                if dmax:
+                    cfg += ",qq_depth_max.%d" % dmax
+                t = pytrs.Tract(text, config=cfg)
+                t.parse(qq_depth_min=dmin, break_halves=bh)
+            qqs = t.qqs
         elif ch == "kw":
             t = pytrs.Tract(text)
             kw = {"break_halves": bh}
@@ -397,6 +411,16 @@ def plss_make(a):
         d = pytrs.PLSSDesc(text, config=cfg, source=src, wait_to_parse=True, **kw)
         d.parse(layout=lay)
         return d
+    if lay and ch == "assign":          # the layout arrives through the .config setter of an existing object
+        d = pytrs.PLSSDesc(text, config=cfg, source=src, **kw)
+        d.config = lay
+        d.parse()
+        return d
+    if lay and ch == "assign_wait":     # ... of an object that has not been parsed yet
+        d = pytrs.PLSSDesc(text, config=cfg, source=src, wait_to_parse=True, **kw)
+        d.config = lay
+        d.parse()
+        return d
     return pytrs.PLSSDesc(text, config=cfg, source=src, **kw)
 
 
@@ -727,7 +751,7 @@ def c13_scenario(case):
 # ---------------------------------------------------------------------------
 # C14: object life-cycles
 
-C14_PLSS_TEXT = "T154-R97W Sec 15 NE, Lots 1, 1, N/2, Sec 14 Lots 5 - 3, NE"
+C14_PLSS_TEXT = "T154-R97W Sec 15 NE, Lots 1, 1, N/2, Sec 14 Lots 5 - 3, NE, Sec 20 - 21 Lots 2, 2, NE"
 # (which duplicate flags there are depends on clean_qq and on the depth, so stale flags are visible)
 C14_TRACT_TEXT = "Lots 1, 1, 5 - 3, NE, NE/4, N/2NE/4, SW"
 _SETTING_ATTRS = ["default_ns", "default_ew", "layout", "wait_to_parse", "parse_qq", "clean_qq", "sec_colon_required",
